@@ -3,7 +3,7 @@
 # and undoes it straight afterwards (git checkout -- .). Prints one line per (seed, check). /repo must be clean and idle.
 cd /verif
 [ -z "$(git -C /repo status --porcelain)" ] || { echo "/repo is not clean"; exit 2; }
-for d in seeded/S*/; do
+for d in /verif/seeded/S*/; do
   id=$(basename $d)
   if [ $# -gt 0 ] && ! echo "$@" | grep -qw "$id"; then continue; fi
   props=$(/venv/bin/python -c "import json;print(' '.join(json.load(open('$d/meta.json'))['caught_by'].keys()))")
